@@ -3,8 +3,11 @@
 package chain
 
 import (
+	"crypto/sha256"
+	"encoding/hex"
 	"encoding/json"
 	"fmt"
+	"hash"
 	"math/rand"
 	"runtime/debug"
 	"time"
@@ -86,14 +89,19 @@ type Node struct {
 	Genesis []byte
 	Log     []Step
 	Record  bool
+	// Digests holds one digest per committed height (when Record is set): everything
+	// Tendermint hashes or stores about the block's results plus the app hash.
+	Digests []string
+	dig     hash.Hash
+	GenTime time.Time
 }
 
 // Step is one replayable ABCI action.
 type Step struct {
-	Kind   string // "begin", "tx", "gov", "end"
-	Time   time.Time
-	Tx     []byte
-	GovMsg []byte // Any-packed proto message executed with gov authority
+	Kind   string    `json:"kind"` // "begin", "tx", "gov", "sig", "end"
+	Time   time.Time `json:"time"`
+	Tx     []byte    `json:"tx,omitempty"`
+	GovMsg []byte    `json:"msg,omitempty"` // Any-packed proto message (gov execution / signature message server)
 }
 
 func newApp() (*c4eapp.App, appparams.EncodingConfig) {
@@ -271,6 +279,7 @@ func (n *Node) initChain(genesis []byte, t time.Time, initialHeight int64) (err 
 	})
 	n.Height = initialHeight - 1
 	n.Time = t
+	n.GenTime = t
 	n.hasDeliver = true
 	return nil
 }
@@ -309,6 +318,10 @@ func (n *Node) BeginBlock(t time.Time) (res abci.ResponseBeginBlock, err error) 
 	res = n.App.BeginBlock(req)
 	n.InBlock = true
 	n.hasDeliver = true
+	if n.Record {
+		n.dig = sha256.New()
+		n.digestEvents("begin", res.Events)
+	}
 	return res, nil
 }
 
@@ -324,6 +337,16 @@ func (n *Node) EndBlock() (res abci.ResponseEndBlock, appHash []byte, err error)
 	}()
 	res = n.App.EndBlock(abci.RequestEndBlock{Height: n.Height + 1})
 	c := n.App.Commit()
+	if n.Record && n.dig != nil {
+		n.digestEvents("end", res.Events)
+		for _, vu := range res.ValidatorUpdates {
+			bz, _ := vu.Marshal()
+			n.dig.Write(bz)
+		}
+		n.dig.Write(c.Data)
+		n.Digests = append(n.Digests, hex.EncodeToString(n.dig.Sum(nil)))
+		n.dig = nil
+	}
 	n.Height++
 	n.InBlock = false
 	n.hasDeliver = false
@@ -376,7 +399,62 @@ func (n *Node) DeliverTxBytes(bz []byte) (res abci.ResponseDeliverTx, err error)
 			err = &PanicError{Where: "DeliverTx", Value: fmt.Sprint(r), Stack: string(debug.Stack())}
 		}
 	}()
-	return n.App.DeliverTx(abci.RequestDeliverTx{Tx: bz}), nil
+	res = n.App.DeliverTx(abci.RequestDeliverTx{Tx: bz})
+	if n.Record && n.dig != nil {
+		fmt.Fprintf(n.dig, "tx|%d|%s|%d|", res.Code, res.Codespace, res.GasUsed)
+		n.dig.Write(res.Data)
+		n.digestEvents("txev", res.Events)
+	}
+	return res, nil
+}
+
+func (n *Node) digestEvents(tag string, evs []abci.Event) {
+	if n.dig == nil {
+		return
+	}
+	fmt.Fprintf(n.dig, "%s|%d|", tag, len(evs))
+	for _, e := range evs {
+		bz, _ := e.Marshal()
+		n.dig.Write(bz)
+	}
+}
+
+// DigestNote mixes an out-of-band execution result (governance / message-server
+// execution) into the block digest.
+func (n *Node) DigestNote(tag string, ok bool, evs []abci.Event) {
+	if n.Record && n.dig != nil {
+		fmt.Fprintf(n.dig, "%s|%v|", tag, ok)
+		n.digestEvents(tag, evs)
+	}
+}
+
+// RecordMsg appends a replayable out-of-band message step.
+func (n *Node) RecordMsg(kind string, msg sdk.Msg) {
+	if !n.Record {
+		return
+	}
+	any, err := codectypes.NewAnyWithValue(msg)
+	if err != nil {
+		return
+	}
+	bz, err := n.Enc.Marshaler.Marshal(any)
+	if err != nil {
+		return
+	}
+	n.Log = append(n.Log, Step{Kind: kind, GovMsg: bz})
+}
+
+// DecodeMsg decodes a step's Any-packed message.
+func (n *Node) DecodeMsg(bz []byte) (sdk.Msg, error) {
+	var any codectypes.Any
+	if err := n.Enc.Marshaler.Unmarshal(bz, &any); err != nil {
+		return nil, err
+	}
+	var msg sdk.Msg
+	if err := n.App.InterfaceRegistry().UnpackAny(&any, &msg); err != nil {
+		return nil, err
+	}
+	return msg, nil
 }
 
 const DefaultGas = 10_000_000
@@ -403,17 +481,12 @@ func IsPanicResult(res abci.ResponseDeliverTx) bool {
 // ValidateBasic, then the registered handler on a branched context written back
 // only on success.
 func (n *Node) GovExec(msg sdk.Msg) (res *sdk.Result, events []abci.Event, err error) {
-	if n.Record {
-		any, aerr := codectypes.NewAnyWithValue(msg)
-		if aerr == nil {
-			bz, _ := n.Enc.Marshaler.Marshal(any)
-			n.Log = append(n.Log, Step{Kind: "gov", GovMsg: bz})
-		}
-	}
+	n.RecordMsg("gov", msg)
 	defer func() {
 		if r := recover(); r != nil {
 			err = &PanicError{Where: "GovExec", Value: fmt.Sprint(r), Stack: string(debug.Stack())}
 		}
+		n.DigestNote("gov", err == nil, events)
 	}()
 	if err := msg.ValidateBasic(); err != nil {
 		return nil, nil, err
